@@ -4,7 +4,7 @@ import os
 import tempfile
 
 from engine import gen_states, pool_map
-from readers import run_cli, write_text, workdir
+from readers import read_out, run_cli, write_text, workdir
 
 SEQS = {1: "AWCSG", 2: "C", 3: "GNtSW", 4: "TSGWA"}      # a one-base node (SNP allele), an ambiguous and a soft-masked base, the two
                                                       # IUPAC codes that are their own complement (S = C/G, W = A/T)
@@ -79,13 +79,13 @@ def run_case(job):
         r1 = run_cli(["find_path", gpath, pfile, "-o", o1])
         r2 = run_cli(["find_path", gpath, pfile, "-o", o2, "-f"])
         status = "ok" if r1["status"] == "ok" and r2["status"] == "ok" else f"{r1['status']}/{r2['status']}:{r1['exc']}{r2['exc']}"
-        plain = open(o1).read().split("\n")[:-1] if os.path.exists(o1) else []
-        fasta = open(o2).read().split("\n")[:-1] if os.path.exists(o2) else []
+        plain = read_out(o1).split("\n")[:-1] if os.path.exists(o1) else []
+        fasta = read_out(o2).split("\n")[:-1] if os.path.exists(o2) else []
         single = []
         for p in paths[:: max(1, len(paths) // 6)]:
             o3 = os.path.join(d, "o3")
             r3 = run_cli(["find_path", gpath, pstr(p), "-o", o3])
-            out = open(o3).read() if os.path.exists(o3) else "MISSING"
+            out = read_out(o3) if os.path.exists(o3) else "MISSING"
             single.append({"p": [[o, n] for o, n in p], "out": out[:-1] if out.endswith("\n") and r3["status"] == "ok" else "BAD:" + out})
         return {
             "id": cid,
